@@ -211,6 +211,7 @@ JOINS = {("observer", "emitter thread"): {"emitter", "delayqueue", "queue-mutex"
 def lock_lemmas():
     out = []
     edges = []
+    joins = []
     for (rel, cls), fields in LOCKS.items():
         try:
             m = source.module(rel)
@@ -234,6 +235,8 @@ def lock_lemmas():
                             visit(st.body, held + [got])
                             continue
                     for sub in ast.walk(st) if not isinstance(st, (ast.With, ast.For, ast.While, ast.If, ast.Try)) else []:
+                        if isinstance(sub, ast.Call) and held and isinstance(sub.func, ast.Attribute) and sub.func.attr == "join" and not sub.args:
+                            joins.append((tuple(held), ast.unparse(sub.func.value), f"{cls}.{fn.name}"))
                         if isinstance(sub, ast.Call) and held:
                             src = ast.unparse(sub.func)
                             for key, acq in CALLS_ACQUIRE.items():
@@ -252,6 +255,12 @@ def lock_lemmas():
     out.append(Obligation("lemma[lock levels: every nested acquisition goes to a strictly higher level (observer < emitter < inotify/delay-queue < queue mutex; debouncer condition < trick stopping lock)]",
                           "lemma", [], z3.BoolVal(not bad), "; ".join(f"{a}->{b} in {w}" for a, b, w in bad[:4]), "lock levels"))
     out.append(Obligation("lemma[lock graph is not empty (the extraction still sees the with-statements)]", "lemma", [], z3.BoolVal(len(edges) >= 3), str(len(edges)), "lock levels"))
+    # threads joined while a lock is held, read off the source: under the observer lock only emitters are joined (JOINS: their
+    # bodies never take it); under the tricks' stopping lock and the debouncer's condition nothing is joined - the helper threads
+    # (debouncer, process watcher) call back into code that takes the stopping lock, a join under it is a dead-lock
+    badj = [(h, who, w) for hs, who, w in joins for h in hs if not (h == "observer" and "emitter" in who)]
+    out.append(Obligation("lemma[join under lock: no thread is joined while a lock is held that the joined thread's own code may take (tricks: the helper threads' callbacks take the stopping lock)]",
+                          "lemma", [], z3.BoolVal(not badj), "; ".join(f"{who}.join() under the {h} lock in {w}" for h, who, w in badj[:4]), "lock levels"))
     for (lock, who), takes in JOINS.items():
         out.append(Obligation(f"lemma[join under lock: the {who} joined while holding the {lock} lock never takes that lock]", "lemma", [], z3.BoolVal(lock not in takes), "", "lock levels"))
     return out
